@@ -14,7 +14,7 @@ use crate::sim::stream::{Faults, Monitor, StreamOpts, run_stream};
 pub const SPEC: PropSpec = PropSpec {
     id: "C01",
     level: "exploration",
-    rule: "seeded E1 runs: 1-4 uplinks created by the production create_connections_from_ips on 127.0.0.10+i, session established through the real handshake against a sim receiver, then 4000-8000 ticks in which the four real arms (client datagram via the real recv_from + handle_srt_packet, uplink datagram via handle_uplink_packet, flush_all_batches, handle_housekeeping + classifier + link CC) fire in a PRNG-chosen order under a virtual clock (steps 0..30 ms, occasional jumps across the 1 s / 4 s / 5 s / timeout / 30 s deadlines), packet rates 100 kbit/s..20 Mbit/s (all three batch regimes), bursts up to 200, data (unique 64-bit id, arbitrary sequence numbers, retransmit flag, 13..1500 B) and control datagrams, sim-receiver feedback (SRTLA ACKs, cumulative ACKs, NAKs from modelled loss, keepalive echoes) with delays, and fault plans: black-holed and return-less links, socket send errors (shutdown(Write) -> EPIPE), duplicate REG3, REG_ERR, critical windows. Every frame read from the receiver-side socket is matched byte-for-byte to the injected datagram with the same unique id; the log checker enforces intact / exactly one unique copy / duplicates only on gated links and at most 1 per 100 routed data packets / per-link order / queue conservation (routed = arrived + queued + permitted loss) / flush leaves no queue / threshold rule. Non-trivial = arm-order 4-grams of runs that carried data; distinct = distinct 6-grams of (arm kind x batch regime x some-link-gated x some-link-down) observed.",
+    rule: "seeded E1 runs: 1-4 uplinks created by the production create_connections_from_ips on 127.0.0.10+i, session established through the real handshake against a sim receiver, then 4000-8000 ticks in which the four real arms (client datagram via the real recv_from + handle_srt_packet, uplink datagram via handle_uplink_packet, flush_all_batches, handle_housekeeping + classifier + link CC) fire in a PRNG-chosen order under a virtual clock (steps 0..30 ms, occasional jumps across the 1 s / 4 s / 5 s / timeout / 30 s deadlines), packet rates 100 kbit/s..20 Mbit/s (all three batch regimes), bursts up to 200, data (unique 64-bit id, arbitrary sequence numbers, retransmit flag, 13..1500 B) and control datagrams, sim-receiver feedback (SRTLA ACKs, cumulative ACKs, NAKs from modelled loss, keepalive echoes) with delays, and fault plans: black-holed and return-less links, socket send errors (shutdown(Write) -> EPIPE), duplicate REG3, REG_ERR, critical windows. Every frame read from the receiver-side socket is matched byte-for-byte to the injected datagram with the same unique id; the log checker enforces intact / exactly one unique copy / duplicates only on gated links and at most 1 per 100 routed data packets / per-link order / queue conservation (routed = arrived + queued + permitted loss) / flush leaves no queue / threshold rule. Non-trivial = arm-order 4-grams of runs that carried data; distinct = distinct 6-grams of (arm kind x batch regime x some-link-gated x some-link-down) observed. E6 live lane (12 sessions quick / 96 thorough): the PRODUCTION run_sender_with_config (real tokio::select! loop, reader tasks with recvmmsg, instant-ACK forwarder, timers, SIGHUP stream, control socket) runs in a real process (vlive) on loopback sockets and the real clock; the harness plays the SRT client, the SRTLA receiver model, path faults, receiver restarts, SIGHUP reloads and hostile return traffic, observes every datagram on both sides with kernel receive timestamps and uses the sender's own stats pushes (one per housekeeping tick) as its logical clock. Live oracles for this property: every datagram reaching the receiver side is byte-identical to a datagram the client sent; per uplink socket arrival order = client order; extra copies only across distinct uplinks of which all but one show a stall-gate engagement / silence pull in the sender's stats, at most 1 per 100 routed; at the end every datagram sent while an uplink was connected has arrived, except at most 32 per observed uplink teardown / removal / REG3 (judged only if the kernel's UDP drop counters did not move).",
     assumptions: &[
         "loopback never reorders or drops (an increase of the host's UDP RcvbufErrors counter during the run makes the verdict inconclusive)",
         "short sendmmsg results cannot be provoked on loopback UDP; a quarter of the cases therefore run every uplink over an AF_UNIX datagram socket pair with the kernel-minimum send buffer inside the real BatchUdpSocket (sendmmsg accepts ~2 datagrams per call, a drainer task on the same runtime empties the peer), which drives the short-send loop of send_all_datagrams",
@@ -37,6 +37,9 @@ pub const SPEC: PropSpec = PropSpec {
         ("fault.socket_send_error_armed", 20, 600),
         ("sim.short_send_sessions", 8, 250),
         ("c01.short_send.flushes_over_4_datagrams", 200, 6_000),
+        ("live.sessions.timing_reliable", 6, 48),
+        ("live.C01.completeness_checked", 6, 48),
+        ("live.client.datagrams_delivered", 20000, 200000),
     ],
 };
 
@@ -72,7 +75,26 @@ pub fn run_case(rng: &mut crate::prng::Rng, rep: &mut Report) {
     }
 }
 
+
+use crate::live::ReloadKind as K;
+use crate::live::Scenario as S;
+/// scenario mix of this property's live lane (E6)
+#[allow(unused_imports)]
+const LIVE_SCENARIOS: &[(S, u32)] = &[
+            (S::Steady, 3),
+            (S::HostileReturn, 1),
+            (S::BlackHole, 2),
+            (S::NoReturn, 2),
+            (S::Reload(K::Remove), 1),
+            (S::Reload(K::Replace), 1),
+        ];
+
 pub fn run(cfg: &RunCfg) -> Report {
+    if crate::live::is_live_lane(cfg) {
+        let mut rep = Report::new();
+        crate::live::prop_lane(cfg, &mut rep, "C01", LIVE_SCENARIOS);
+        return rep;
+    }
     let before = crate::sim::udp_rcvbuf_errors();
     let cases = cfg.cases(64, 2000);
     let mut rep = run_cases(cfg, 0, cases, Duration::from_secs(3600), |_c, rng, rep| run_case(rng, rep));
@@ -83,5 +105,7 @@ pub fn run(cfg: &RunCfg) -> Report {
         rep.violations.clear();
         rep.violation_count = 0;
     }
+    // E6: the production event loop in a real process
+    crate::live::prop_lane(cfg, &mut rep, "C01", LIVE_SCENARIOS);
     rep
 }
